@@ -32,7 +32,7 @@ def c11Fee (args : List String) (impl : String) : String × String :=
     | some tx, some fq =>
       let sz := sizeWithTypes tx
       let est := estimateSizeWithTypes tx
-      let model := s!"size={sz.total},{sz.std},{sz.data} est={showEx (fun (s : TxSize) => s!"{s.total},{s.std},{s.data}") est} fees={showEx toString (estimateFeesPaid tx fq)} paid={b01 (isFeePaidEnough tx fq)} estpaid={showEx b01 (estimateIsFeePaidEnough tx fq)} deficit={showEx toString (estimateDeficit tx fq)}"
+      let model := s!"size={sz.total},{sz.std},{sz.data} est={showEx (fun (s : TxSize) => s!"{s.total},{s.std},{s.data}") est} fees={showEx toString (estimateFeesPaid tx fq)} paid={b01 (isFeePaidEnough tx fq)} estpaid={showEx b01 (estimateIsFeePaidEnough tx fq)} deficit={showEx toString (estimateDeficit64 tx fq)}"
       -- predicate: the identities of the property evaluated on the implementation's numbers
       let f := impl.splitOn " "
       let pred :=
@@ -199,11 +199,11 @@ def c12Fund (args : List String) (impl : String) : String × String :=
                     let rec chk (cur : Tx) (cs : List Nat) (bs : List (List UTXO)) (fuel : Nat) : String :=
                       match fuel, cs with
                       | 0, _ => "true"
-                      | _, [] => (match estimateDeficit cur fq with
+                      | _, [] => (match estimateDeficit64 cur fq with
                                   | .ok 0 => "true"
                                   | _ => "false:stopped-with-deficit")
                       | fuel + 1, c :: cs' =>
-                        match estimateDeficit cur fq with
+                        match estimateDeficit64 cur fq with
                         | .ok dd =>
                           if dd != c then s!"false:stale-deficit want={dd} got={c}"
                           else match bs with
@@ -218,7 +218,7 @@ def c12Fund (args : List String) (impl : String) : String × String :=
                 | 0, _ => "true"
                 | _, [] => "true"
                 | fuel + 1, c :: cs' =>
-                  match estimateDeficit cur fq with
+                  match estimateDeficit64 cur fq with
                   | .ok dd =>
                     if dd != c then s!"false:stale-deficit want={dd} got={c}"
                     else match bs with
